@@ -4,6 +4,7 @@ use std::io::{BufRead, Write};
 
 mod compile;
 mod names;
+mod resolve;
 
 fn main() {
     let args: Vec<String> = std::env::args().collect();
@@ -23,6 +24,13 @@ fn main() {
                 let v: serde_json::Value = serde_json::from_str(&line).unwrap();
                 let r = names::go_ident_case(&v);
                 writeln!(out, "{}", r).unwrap();
+            }
+        }
+        "resolve" => {
+            for line in stdin.lock().lines() {
+                let line = line.unwrap();
+                let v: serde_json::Value = serde_json::from_str(&line).unwrap();
+                writeln!(out, "{}", resolve::resolve_case(&v)).unwrap();
             }
         }
         "compile" => {
